@@ -235,6 +235,7 @@ DISCR = {
     "ControlFlow": {"Continue": 0, "Break": 1},
     "Ordering": {"Less": -1, "Equal": 0, "Greater": 1},
     "Cow": {"Borrowed": 0, "Owned": 1},
+    "Entry": {"Vacant": 0, "Occupied": 1},
     "Component": {"Prefix": 0, "RootDir": 1, "CurDir": 2, "ParentDir": 3, "Normal": 4},
 }
 
